@@ -16,6 +16,9 @@ Audit additions (input classes inside the quantifier that the first generators d
   followed by valid ones, closed form and histogram damage interleaved;
 * references computed independently of qats (`ref_bins`, `ref_weibull`);
 * every exception raised by the implementation becomes a failing clause.
+
+Audit round 8 (size-conditioned code paths): `long` / `gh-long` = histograms and cycle tables of 999 ... 131073 bins / rows
+(c06_long.py), clauses evaluated exactly per bin; failing inputs carry (n, seed, events), not the data.
 """
 import math
 
@@ -40,7 +43,11 @@ RULE = ("seeded S-N curves x random histograms (1-40 bins) x scf in [1,3] x thic
         "arguments, duration or rate 0, shape 0.5-5, scale 0.01-100 x transition stress; `gh` = cycle tables as views of an (n,3) "
         "rainflow table, tuples, lists, int / read-only / Fortran arrays, uts as int / numpy scalar, means up to 0.999 uts, "
         "zero ranges, empty table, units 2^+-200 / 1e+-6 / ksi, a second ultimate strength in between; `gh-signal` = "
-        "count_cycles(signal)[:, :2] as documented")
+        "count_cycles(signal)[:, :2] as documented; `long` / `gh-long` = histograms / cycle tables of 999, 1000, 1001, 1023, 1024, "
+        "1025, 4095, 4096, 4097, 9999, 10000, 10001 and 65535 ... 131073 bins / rows (flat, spread over both branches, or the "
+        "graded Weibull discretisation), dominant / transition-stress / zero-count / zero-range bins and near-uts / zero-mean "
+        "rows in the first and last elements, at multiples of 1000 / 1024 / 4096 / 10000 / 65536 and in pairs spanning them; "
+        "counts as float / int32 / int64, views, lists, read-only")
 
 
 class _CapObj(object):
@@ -991,12 +998,37 @@ def run(chk):
             d = "err " + type(e).__name__
         if not close(val(o), d, 1e-9):
             chk.disagree("sn.minersum", inp, val(o), d)
+    # ---- audit round 8: LONG histograms / cycle tables (exact per-bin reference), the Lean model on those up to MODEL_MAX bins
+    from . import c06_long
+    longs = [inp for inp in c06_long.run_long(chk, corpus) if inp["n"] <= c06_long.MODEL_MAX or (inp["n"] == 65537 and not chk.quick)]
+    longs = [inp for inp in longs if inp["n"] <= c06_long.MODEL_MAX][:9 if chk.quick else 40] + [inp for inp in longs if inp["n"] > c06_long.MODEL_MAX][:1]
+    llines, ldam = [], []
+    for inp in longs:
+        c = floatcurve(inp["curve"])
+        snf, _ = build(c)
+        sr, cnt = c06_long.long_hist(inp)
+        hist = " ".join(fbits(float(a)) + " " + fbits(float(b)) for a, b in zip(sr, cnt))
+        llines.append("sn.minersum %s %s %s %s %s" % (curve_tokens(c, snf), fbits(inp["td"]), fbits(inp["scf"]),
+                                                       "-" if inp["th"] is None else fbits(inp["th"]), hist))
+        try:
+            ldam.append(float(minersum(sr, cnt, snf, td=inp["td"], scf=inp["scf"], th=inp["th"])))
+        except Exception as e:      # noqa
+            ldam.append("err " + type(e).__name__)
+    for inp, d, o in zip(longs, ldam, drv.run(llines)):
+        chk.count("sn.minersum-long")
+        if not close(val(o), d, 1e-9):
+            chk.disagree("sn.minersum", inp, val(o), d)
 
 
 def replay(rp):
     from qats.fatigue.sn import minersum, minersum_weibull
     inp = rp["input"]
     bad = 0
+    if inp.get("kind") in ("long", "gh-long"):
+        from . import c06_long
+        bad = c06_long.replay_long(inp)
+        print("replay: %d failing clause(s)" % bad)
+        return 1 if bad else 0
     if "srange" in inp and inp.get("kind") not in AUDIT_EVAL:
         sn, kw = build(inp["curve"])
         sr, cnt = inp["srange"], inp["count"]
